@@ -62,6 +62,7 @@ def capture_server_handler(server, site="io_async"):
     box = {}
     proto = server.protocol
     saved = (proto.writer, proto._include_headers, server._stop_event, getattr(server, "_server", None))
+    saved_pool = server._thread_pool
 
     async def rec_async(*a, **kw):
         box["h"] = kw.get("error_handler", a[4] if len(a) > 4 else None)
@@ -112,6 +113,8 @@ def capture_server_handler(server, site="io_async"):
         proto.writer, proto._include_headers = saved[0], saved[1]
         server._stop_event = saved[2]
         server._server = saved[3]
+        if saved_pool is None:
+            server._thread_pool = None      # the call site's shutdown() closed the pool it had created: start afresh
         try:
             asyncio.set_event_loop(None)
         except Exception:
@@ -382,13 +385,21 @@ def _pipe_write(w, data):
 
 def _run_one(case):
     try:
+        raises = case["cfg"]["hook"] == "raises"
+        quiet = dict(case["cfg"], hook="quiet")
         if case.get("loop", "sched") == "sched":
             a = run_sched({"cfg": case["cfg"], "evs": case["evs"]})
             b = run_sched({"cfg": case["cfg"], "evs": case["erased"]})
-            return {"with": a, "without": b}
+            r = {"with": a, "without": b}
+            if raises:      # clause (iv), judged on two real runs: a hook that raises is a hook that does nothing
+                r["quiet"] = run_sched({"cfg": quiet, "evs": case["evs"]})
+            return r
         a = run_stream(case)
         b = run_stream(dict(case, evs=case["erased"]))
-        return {"with": a, "without": b}
+        r = {"with": a, "without": b}
+        if raises:
+            r["quiet"] = run_stream(dict(case, cfg=quiet))
+        return r
     except BaseException as ex:     # noqa
         return ["raise", type(ex).__name__, str(ex)[:300]]
 
@@ -532,7 +543,55 @@ def catalogue(rid, tag, unknown_ids=("zz", 901)):
     cat.append(("raise/req-command-sync", req(m=["command", B("sync", ["raise"]), None]), rw))
     cat.append(("raise/req-command-async", req(m=["command", B("async", ["raise"], n=1), None]), rw))
     cat.append(("raise/notif-builtin", nt(m=["builtin", True, None]), nw))
+    # user handlers registered ON BUILT-IN methods (call_user_feature): the built-in runs first, then the
+    # user feature through _execute_notification; its failure must not touch the built-in's reply
+    for k, kw in (("sync", {}), ("async", {"n": 1}), ("thread", {}), ("thread-early", {"early": True})):
+        kind = k.split("-")[0]
+        for o in (["raise"], ["rpc", -32001]):
+            ub = B(kind, o, **kw)
+            cat.append(("chained/req-initialize-%s-%s" % (k, o[0]), req(m=["builtin", False, ub]), rw))
+            cat.append(("chained/req-command-%s-%s" % (k, o[0]), req(m=["command", B("sync", ["ret", 3]), ub]), rw))
+            cat.append(("chained/notif-initialized-%s-%s" % (k, o[0]), nt(m=["builtin", False, ub]), nw))
+    cat.append(("chained/req-command-async-under-async", req(m=["command", B("async", ["ret", 3], n=1), B("async", ["raise"], n=0)]), rw))
+    cat.append(("chained/notif-failing-builtin", nt(m=["builtin", True, B("sync", ["raise"])]), nw))
     return cat
+
+
+def normalise_chained(items):
+    """A user feature registered under a built-in's name exists for the whole case: every frame of
+    that method carries a chained behaviour of the SAME kind (the first one seen); outcomes stay per
+    frame (frames that had none get a returning one)."""
+    has_init = any(e[0] == "recv" and e[1]["t"] == "req" and (e[1].get("m") or [""])[0] == "builtin" for _m, e in items)
+    slot = {"shutdown": 1, "exit": 1, "builtin": 2, "command": 2}
+    kinds = {}
+    frames = []
+    for _m, e in items:
+        if e[0] != "recv":
+            continue
+        f = e[1]
+        if has_init and f["t"] == "notif" and f.get("ps") == "ok" and f["m"][0] == "builtin" and f["m"][1]:
+            # textDocument/didClose of a never-opened document only fails while no `initialize` has created the workspace
+            f["m"] = ["user", B("sync", ["raise"])]
+        if f["t"] in ("req", "notif") and f.get("ps", "ok") == "ok" and f["m"][0] in slot:
+            frames.append(f)
+            u = f["m"][slot[f["m"][0]]]
+            if u:
+                kinds.setdefault(sched.frame_method(f), (u["k"], u.get("n", 0), u.get("early", False)))
+    for f in frames:
+        name = sched.frame_method(f)
+        if name not in kinds:
+            continue
+        k = kinds[name]
+        u = f["m"][slot[f["m"][0]]] or {"o": ["ret", 1], "r": "prop"}
+        u = dict(u, k=k[0])
+        u.pop("n", None)
+        u.pop("early", None)
+        if k[0] == "async":
+            u["n"] = k[1]
+        if k[0] == "thread":
+            u["early"] = k[2]
+        f["m"][slot[f["m"][0]]] = u
+    return items
 
 
 SYNC_ONLY = lambda f: all(b["k"] == "sync" for b in C06._behavs(["recv", f]))
@@ -725,6 +784,130 @@ def e2e_client(hook):
     return res, {"notes": list(range(len(bad))), "hook": len(bad), "stop": "returned", "reader_alive": True}
 
 
+def lsp_session(kind, hook):
+    """A real LanguageServer session in which user handlers registered ON the built-in methods all raise
+    (`kind`: sync / async / thread): replies, workspace text and hook calls."""
+    from pygls.lsp.server import LanguageServer
+    import pygls.io_ as pio
+    calls = []
+
+    class Server(LanguageServer):
+        def report_server_error(self, error, source):
+            calls.append(getattr(source, "__name__", str(source)))
+            if hook == "raises":
+                raise RuntimeError("scripted hook failure")
+
+    srv = Server("c06-lsp", "1")
+    names = ["initialize", "initialized", "textDocument/didOpen", "textDocument/didChange", "textDocument/didClose",
+             "$/setTrace", "workspace/executeCommand", "shutdown", "workspace/didChangeWorkspaceFolders"]
+    ran = []
+    for name in names:
+        if kind == "async":
+            async def h(*a, _n=name):
+                ran.append(_n)
+                raise ValueError("user handler on %s failed" % _n)
+        else:
+            def h(*a, _n=name):
+                ran.append(_n)
+                raise ValueError("user handler on %s failed" % _n)
+            if kind == "thread":
+                h = srv.thread()(h)
+        srv.feature(name)(h)
+
+    @srv.command("c.ok")
+    def cmd(*a):
+        return 41
+
+    @srv.feature("t/echo")
+    def echo(params):
+        return params["x"] if isinstance(params, dict) else params.x
+    writes = []
+
+    class W:
+        def write(self, data):
+            writes.append(bytes(data))
+
+        def close(self):
+            pass
+    uri = "file:///c06.txt"
+    msgs = [
+        {"id": 1, "method": "initialize", "params": {"capabilities": {}, "processId": None, "rootUri": None}},
+        {"method": "initialized", "params": {}},
+        {"method": "textDocument/didOpen", "params": {"textDocument": {"uri": uri, "languageId": "t", "version": 1, "text": "one\n"}}},
+        {"id": 2, "method": "t/echo", "params": {"x": 2}},
+        {"method": "textDocument/didChange", "params": {"textDocument": {"uri": uri, "version": 2}, "contentChanges": [{"text": "two\n"}]}},
+        {"method": "$/setTrace", "params": {"value": "verbose"}},
+        {"id": 3, "method": "workspace/executeCommand", "params": {"command": "c.ok", "arguments": []}},
+        {"id": 4, "method": "t/echo", "params": {"x": 4}},
+        {"id": 5, "method": "shutdown"},
+    ]
+    data = b"".join(_fr(_j(dict(m, jsonrpc="2.0"))) for m in msgs)
+    handler = capture_server_handler(srv, "io_async")
+    srv.protocol.set_writer(W())
+    stop = threading.Event()
+    loop = asyncio.new_event_loop()
+    term = "normal"
+    try:
+        reader = asyncio.StreamReader(loop=loop)
+        reader.feed_data(data)
+        reader.feed_eof()
+
+        async def go():
+            await pio.run_async(stop, reader, srv.protocol, error_handler=handler)
+            for _ in range(100):        # let handler tasks / pool jobs and their callbacks finish
+                await asyncio.sleep(0.005)
+                if len(ran) >= 7 and not [t for t in asyncio.all_tasks() if t is not asyncio.current_task()]:
+                    break
+        try:
+            loop.run_until_complete(asyncio.wait_for(go(), 20))
+        except Exception as e:      # noqa
+            term = "raise:" + type(e).__name__
+    finally:
+        try:
+            if srv._thread_pool:
+                srv._thread_pool.shutdown(wait=True)
+        except Exception:           # noqa
+            pass
+        loop.close()
+    doc = srv.workspace.text_documents.get(uri)
+    replies = sorted((core.canon(f) for f in (sched.decode_frame(d) for d in writes) if f[0] == "resp"))
+    return {"term": term, "replies": replies, "text": None if doc is None else doc.source,
+            "version": None if doc is None else doc.version, "shutdown": bool(srv.protocol._shutdown),
+            "user_handlers_run": sorted(ran), "hook_calls": sorted(calls)}
+
+
+def hook_call_sites():
+    """Static sweep of the pygls tree: every textual use of report_server_error, classified."""
+    import re
+    root = os.path.join(core.REPO, "pygls")
+    res = {"protected_calls": [], "handler_arguments": [], "definitions": [], "inside_protecting_wrapper": [], "UNPROTECTED_calls": []}
+    for d, _, fs in os.walk(root):
+        for fn in sorted(fs):
+            if not fn.endswith(".py"):
+                continue
+            p = os.path.join(d, fn)
+            lines = open(p, encoding="utf-8").read().split("\n")
+            cur = None
+            for n, line in enumerate(lines, 1):
+                m = re.match(r"\s*(?:async\s+)?def\s+(\w+)", line)
+                if m:
+                    cur = m.group(1)
+                if "report_server_error" not in line or line.strip().startswith("#"):
+                    continue
+                where = "%s:%d" % (os.path.relpath(p, core.REPO), n)
+                if re.search(r"def\s+_?report_server_error", line):
+                    res["definitions"].append(where)
+                elif "._report_server_error(" in line or re.search(r"\b_report_server_error\(", line):
+                    res["protected_calls"].append(where)
+                elif re.search(r"error_handler\s*=\s*self\._report_server_error", line):
+                    res["handler_arguments"].append(where)
+                elif cur == "_report_server_error":
+                    res["inside_protecting_wrapper"].append(where)
+                elif re.search(r"report_server_error\(", line) or re.search(r"=\s*\S*report_server_error\b", line):
+                    res["UNPROTECTED_calls"].append(where)
+    return res
+
+
 def site_table():
     """Behaviour of the handler each call site passes, with a hook that raises: 1 = its call returns."""
     from pygls.lsp.server import LanguageServer
@@ -802,6 +985,14 @@ class C06(core.Property):
         o = rng.choice([["ret", rng.choice([0, 1, 7, -3])]] * 5 + [["raise"], ["rpc", -32001]] + ([] if sync_only else [["unser"]]))
         return B(k, o, n=rng.choice([0, 1, 1, 2]), early=rng.random() < 0.2, r=rng.choice(["prop", "prop", "swallow"]))
 
+    def _ubehav(self, rng):
+        """The user feature registered under a built-in's name (None: none): mostly raising."""
+        if rng.random() < 0.4:
+            return None
+        k = rng.choice(["sync", "sync", "async", "thread"])
+        return B(k, rng.choice([["raise"], ["raise"], ["rpc", -32001], ["ret", 1]]), n=rng.choice([0, 1]),
+                 early=rng.random() < 0.3)
+
     def _good(self, rng, nmsg, sync_only=False, allow_shutdown=True):
         ids = list(GOOD_IDS)
         rng.shuffle(ids)
@@ -812,17 +1003,19 @@ class C06(core.Property):
                 i = ids.pop()
                 used.append(i)
                 y = rng.random()
-                if y < 0.75:
+                if y < 0.65:
                     m = ["user", self._gbehav(rng, sync_only)]
-                elif y < 0.85 or sync_only:
+                elif y < 0.75 or sync_only:
                     m = ["unknown", rng.choice([0, 1])]
+                elif y < 0.9:
+                    m = ["command", self._gbehav(rng), self._ubehav(rng)]
                 else:
-                    m = ["command", self._gbehav(rng), None]
+                    m = ["builtin", False, self._ubehav(rng)]
                 msgs.append(["recv", {"t": "req", "id": i, "ver": True, "ps": "ok", "m": m}])
             elif x < 0.8:
                 tag += 1
                 y = rng.random()
-                m = ["user", self._gbehav(rng, sync_only)] if y < 0.7 else ["unknown"] if y < 0.85 or sync_only else ["builtin", False, None]
+                m = ["user", self._gbehav(rng, sync_only)] if y < 0.7 else ["unknown"] if y < 0.85 or sync_only else ["builtin", False, self._ubehav(rng)]
                 msgs.append(["recv", {"t": "notif", "tag": tag, "ver": True, "ps": "ok", "m": m}])
             elif x < 0.9 and used:
                 tag += 1
@@ -837,7 +1030,7 @@ class C06(core.Property):
                 msgs.append(["recv", {"t": "notif", "tag": tag, "ver": True, "ps": "ok", "m": ["unknown"]}])
         if allow_shutdown and rng.random() < 0.2 and ids:
             msgs.insert(rng.randint(max(0, len(msgs) - 2), len(msgs)),
-                        ["recv", {"t": "req", "id": ids.pop(), "ver": True, "ps": "ok", "m": ["shutdown", None]}])
+                        ["recv", {"t": "req", "id": ids.pop(), "ver": True, "ps": "ok", "m": ["shutdown", None if sync_only else self._ubehav(rng)]}])
         return msgs
 
     def _members(self, rng, k, sync_only=False):
@@ -857,7 +1050,7 @@ class C06(core.Property):
         for (name, f, who), p in sorted(zip(members, positions), key=lambda x: -x[1]):
             items.insert(p, (1, ["recv", f]))
         bad = [w for (_, _, w) in members if w]
-        return items, bad
+        return normalise_chained(copy.deepcopy(items)), bad
 
     def _with_dup(self, rng, items):
         """A duplicate of the good response, marked, somewhere after it."""
@@ -869,8 +1062,8 @@ class C06(core.Property):
 
     def _interleave(self, chk, scens, maxlen=70, drain=True):
         rng = chk.rng
-        st = [{"cfg": cfg, "evs": [], "marks": [], "rest": list(items), "bad": bad, "cat": cat, "done": False}
-              for cfg, items, bad, cat in scens]
+        st = [{"cfg": cfg, "evs": [], "marks": [], "rest": normalise_chained(copy.deepcopy(list(items))), "bad": bad,
+               "cat": cat, "done": False} for cfg, items, bad, cat in scens]
         for _ in range(maxlen):
             live = [s for s in st if not s["done"]]
             if not live:
@@ -1012,7 +1205,7 @@ class C06(core.Property):
     def generate(self, chk):
         cases = list(self.corpus())
         cases += self.gen_positions(chk)
-        cases += self.gen_random(chk, chk.n(1500, 12000))
+        cases += self.gen_random(chk, chk.n(1100, 12000))
         cases += self.gen_streams(chk, chk.n(300, 3000))
         cases += self.gen_finding(chk, chk.n(10, 100))
         if not chk.quick:
@@ -1041,13 +1234,22 @@ class C06(core.Property):
     def model_output(self, case, toks):
         m = parse_c06(case, toks)
         guard = m["wf"] and m["cfg_ok"] and not m["undef"]
+        # C01's finding F18 (a pool thread answering through an awaitable writer): outside C06, compared but not judged
+        f18 = case["cfg"]["writer"] == "awaitable" and any(
+            e[0] == "recv" and e[1]["t"] == "req" and e[1].get("ps") == "ok" and
+            any(isinstance(b, dict) and b["k"] == "thread" for b in (e[1]["m"][1:2] if e[1]["m"][0] in ("user", "command") else []))
+            for e in case["evs"])
+        if f18:
+            guard = False
         owed = list(m["owed"])
         if case.get("loop", "sched") == "sched":
             M = {"with": {"obs": m["obs"]}, "without": {"obs": m["obs2"]}}
         else:
             M = {"with": self._agg(m["obs"]), "without": self._agg(m["obs2"])}
+        if case["cfg"]["hook"] == "raises":
+            M["quiet"] = M["with"]          # hook_raise_contained
         S = {"owed": owed, "counts": m["counts"], "erased": m["erased"]}
-        if not guard and m["vresp"] and m["cfg_ok"] and not m["undef"]:
+        if not guard and not f18 and m["vresp"] and m["cfg_ok"] and not m["undef"]:
             # outside the guard, inside the full statement: the recorded finding F30
             return {"M": M, "S": S, "guard": False, "klass": F30}
         return {"M": M, "S": S if guard else None, "guard": guard, "klass": None}
@@ -1064,6 +1266,8 @@ class C06(core.Property):
         if core.canon(S["erased"]) != core.canon(case["erased"]):
             return False
         w, o = impl["with"], impl["without"]
+        if case["cfg"]["hook"] == "raises" and core.canon(impl.get("quiet")) != core.canon(w):
+            return False
         if case.get("loop", "sched") != "sched":
             a = core_view(dict(w, exit=None, closed=False, alive=w["term"] == "normal"), case["bad"])
             b = core_view(dict(o, exit=None, closed=False, alive=o["term"] == "normal"), [])
@@ -1153,6 +1357,19 @@ class C06(core.Property):
             runs += 1
             if got != want:
                 viol.append({"case": {"k": "e2e-client", "hook": hook}, "impl": got, "S": want, "verdict": "violation"})
+        # user handlers ON built-in methods, all raising: a raising hook must behave as a quiet one, the
+        # built-in's reply and its workspace effect included
+        for kind in ("sync", "async", "thread"):
+            q, r = lsp_session(kind, "quiet"), lsp_session(kind, "raises")
+            runs += 2
+            want = {"term": "normal", "text": "two\n", "version": 2, "shutdown": True}
+            bad = q != r or any(q.get(k2) != v for k2, v in want.items()) or len(q["user_handlers_run"]) < 7 \
+                or not any('"result"' in x and "[\"resp\",1," in x for x in q["replies"])
+            if bad:
+                viol.append({"case": {"k": "lsp-session-chained-handlers", "kind": kind}, "impl": {"quiet": q, "raises": r},
+                             "S": dict(want, note="identical under both hooks; initialize / executeCommand / shutdown answered with their results"),
+                             "verdict": "violation"})
+        cov["hook_call_sites"] = hook_call_sites()
         cov["end_to_end_runs"] = runs
         cov["end_to_end_bad_frames_per_run"] = len(E2E_BAD)
         self.extra_coverage = dict(getattr(self, "extra_coverage", {}) or {}, **cov)
